@@ -229,7 +229,9 @@ Section CompRun.
                                ((match cfamily c with FExt => [CAtLeastOneDefault] | _ => [] end) ++ ccons c) = Ok tt).
     { apply constr_all_ok. intros k Hk.
       pose proof Hcons as Hcons'. rewrite forallb_forall in Hcons'. pose proof (Hcons' k Hk) as Hok.
-      apply (constr_complete vr ev pok c sc mem setting Hfam Hsub Hent Hin HT (S m) k Hok).
+      assert (Hcomp : forall k0 v0, alookup k0 mem = Some v0 -> exists s0, find_slot c k0 = Some s0 /\ kind_complete2 (skind s0) = true).
+      { intros k0 v0 Hv0. destruct (Hmem k0 v0 (alookup_In _ _ _ Hv0)) as (s0 & _ & A & _ & _ & B & _). eauto. }
+      apply (constr_complete vr ev pok c sc mem setting Hfam Hsub Hent Hin HT Hcomp (S m) k Hok).
       apply in_app_or in Hk. destruct Hk as [Hk | Hk].
       - apply V3. apply in_or_app. left. rewrite <- Hfam. exact Hk.
       - destruct (Hcc k Hk) as [-> | Hk']; [reflexivity|]. apply V3. apply in_or_app. right. exact Hk'. }
